@@ -11,5 +11,6 @@ pub mod reqgen;
 pub mod respgen;
 pub mod report;
 pub mod rng;
+pub mod shutlab;
 pub mod util;
 pub mod wsref;
